@@ -317,3 +317,20 @@ def run(ck):
     ck.ob('C14.key', 'C14.key/register-always-rewrites-session', not rets_rk and len(sess_w) >= 1 and len(keys_w) >= 1, rk_.loc(rets_rk[0]) if rets_rk else rk_.loc(),
           'register_peer_key records the key and rewrites the live session\'s key on every call: no "unchanged" shortcut returns first (a session created '
           'from a snapshot taken before a rotation is repaired by the next registration)')
+
+    # ---- a retiring reader removes the table entry only if it still is its own session object ------------------------------------------------------
+    from sa.match import holds as _h14
+    ers = [i for i in rl.walk() if rl.nodes[i]['k'] == 'CXXMemberCallExpr' and (rl.nodes[i].get('callee') or '').endswith('::erase') and rl.receiver(i) is not None and
+           (rl.nodes[rl.strip(rl.receiver(i))].get('m') or '') == SM + 'sessions_']
+
+    def same_obj(fact):
+        h = _h14(rl, fact)
+        if not h:
+            return False
+        a_, op_, b_ = h
+        return op_ == '==' and all((rl.nodes[rl.strip(x)].get('callee') or '').endswith('::get') for x in (a_, b_))
+    ck.floor('C14.key', 'sessions_.erase sites in receive_loop', len(ers), 1)
+    f14, _ = gate_check(rl, [('erase', i) for i in ers], [('same session object', same_obj)])
+    ck.ob('C14.key', 'C14.key/reader-erases-only-its-own-session', not f14, rl.loc(f14[0][2]) if f14 else rl.loc(),
+          'receive_loop erases sessions_[peer] on exit only past `it->second.get() == session.get()` (after a replacement the entry belongs to the new session)',
+          f14[0][3] if f14 else None)
